@@ -153,11 +153,30 @@ func majorVersion() int64 {
 var (
 	homeOnce sync.Once
 	homes    map[string][]int
+	// homeClass[lint][corpus index]: 0 = window test reached only (NE), 1 = body executed and passed / NA, 2 = body executed with a finding
+	homeClass map[string]map[int]int
 )
 
 func homeObjects() map[string][]int {
 	homeOnce.Do(func() {
 		homes = map[string][]int{}
+		homeClass = map[string]map[int]int{}
+		note := func(name string, i int, e model.Expected) {
+			if e.Stage == model.StExecuted || e.Stage == model.StNotEffective {
+				homes[name] = append(homes[name], i)
+				cl := 0
+				if e.Stage == model.StExecuted {
+					cl = 1
+					if e.V.Status > lint.Pass {
+						cl = 2
+					}
+				}
+				if homeClass[name] == nil {
+					homeClass[name] = map[int]int{}
+				}
+				homeClass[name][i] = cl
+			}
+		}
 		co := gen.LoadCorpus()
 		cfg := lint.NewEmptyConfig()
 		g := lint.GlobalRegistry()
@@ -167,10 +186,7 @@ func homeObjects() map[string][]int {
 				continue
 			}
 			for _, l := range g.CertificateLints().Lints() {
-				e := model.ExpectCert(l, c, cfg)
-				if e.Stage == model.StExecuted || e.Stage == model.StNotEffective {
-					homes[l.Name] = append(homes[l.Name], i)
-				}
+				note(l.Name, i, model.ExpectCert(l, c, cfg))
 			}
 		}
 		for i, o := range co.CRLs {
@@ -179,10 +195,7 @@ func homeObjects() map[string][]int {
 				continue
 			}
 			for _, l := range g.RevocationListLints().Lints() {
-				e := model.ExpectCRL(l, c, cfg)
-				if e.Stage == model.StExecuted || e.Stage == model.StNotEffective {
-					homes[l.Name] = append(homes[l.Name], i)
-				}
+				note(l.Name, i, model.ExpectCRL(l, c, cfg))
 			}
 		}
 		for i, o := range co.OCSPs {
@@ -191,10 +204,7 @@ func homeObjects() map[string][]int {
 				continue
 			}
 			for _, l := range g.OcspResponseLints().Lints() {
-				e := model.ExpectOCSP(l, c, cfg)
-				if e.Stage == model.StExecuted || e.Stage == model.StNotEffective {
-					homes[l.Name] = append(homes[l.Name], i)
-				}
+				note(l.Name, i, model.ExpectOCSP(l, c, cfg))
 			}
 		}
 	})
